@@ -442,7 +442,7 @@ def run(ck):
             continue
         seen.add(k2)
         ck.report(dict(xml=cases[i]["xml"], what=cases[i]["what"], implementation=(outs[i] or "")[:1500]), oracle=key, key="params:" + k2, what="parameter file: " + f)
-    if not fails:
+    if not ck.violations:
         if not ok:
             ck.report(dict(log=ck.proof_res["log"][-3000:], translator=tr.stdout[-1000:]), unchecked="Properties_C18.vo (theorems over the tables regenerated from parameter_reader.cpp)", what="proof obligations of C18 no longer check")
         elif not translation_ok:
